@@ -935,7 +935,7 @@ def rule_X5(ctx, info):
     # ---- ccf
     f = prog.fn(MAP + "get_map_ccfs")
     Q = f.qualname
-    ex = extract(prog, f)
+    ex = extract(prog, f, **_out_given(f))
     used = set()
     sts = _stores(ex)
     if len(sts) != 1:
@@ -963,7 +963,7 @@ def rule_X5(ctx, info):
     # ---- clonal prevalence
     f = prog.fn(MAP + "get_map_clonal_prev")
     Q = f.qualname
-    ex = extract(prog, f)
+    ex = extract(prog, f, **_out_given(f))
     sp = spec(prog, """
         def s(tree, node, ccf, out):
             out[node] = ccf[node] - sum(ccf[c] for c in tree.successors(node))
@@ -983,6 +983,31 @@ def rule_X5(ctx, info):
     # ---- pipeline
     _pipeline(ctx, info)
     _consumer(ctx, info)
+
+
+def _out_given(f):
+    """Interpreter options for a recursive stage whose output dictionary is an optional last parameter (`result=None`,
+    replaced by a fresh dictionary when absent): the recursion is judged for the case in which it is given."""
+    a = f.node.args
+    pos = a.posonlyargs + a.args
+    if pos and a.defaults and isinstance(a.defaults[-1], ast.Constant) and a.defaults[-1].value is None:
+        return {"assume": "%s is not None" % pos[-1].arg}
+    return {}
+
+
+def _fresh_when_omitted(prog, f, stages):
+    """Does stage `f`, called without its optional last parameter, create a fresh dictionary, fill that and return it?"""
+    a = f.node.args
+    pos = a.posonlyargs + a.args
+    if not (pos and a.defaults and isinstance(a.defaults[-1], ast.Constant) and a.defaults[-1].value is None):
+        return False
+    sx = extract(prog, f, no_inline=[f.name], assume="%s is None" % pos[-1].arg)
+    r = sx.result
+    if not isinstance(r, ADict):
+        return False
+    # everything the recursion receives as its output is that same dictionary
+    rec = sx.calls(f.name)
+    return all(len(e.args) == len(pos) and e.args[-1] is r for e in rec)
 
 
 def _handle(v):
@@ -1020,6 +1045,16 @@ def _pipeline(ctx, info):
                 raise AnalysisError("C10/X5: %s does not call %s exactly once" % (w.qualname, st))
             pidx = {vkey(P(n)): n for n in range(len(w.params))}
             amap = [pidx.get(vkey(a)) if not isinstance(a, (ADict, AList)) else None for a in ev[0].args]
+            stage_fi = prog.fn(MAP + st)
+            if len(ev[0].args) == len(stage_fi.params) - 1 and not ev[0].kwargs and _fresh_when_omitted(prog, stage_fi, stages):
+                # the stage makes the dictionary itself when none is handed in, and returns it; the helper returns that
+                call_atom = Poly.atom(("call", st, tuple(vkey(a) for a in ev[0].args), ()))
+                ok = wx.result is not None and not isinstance(wx.result, (ADict, AList)) and vkey(wx.result) == vkey(call_atom) and all(x is not None for x in amap)
+                ctx.check(ok, "X5", "%s: fills a fresh dictionary through %s and returns that dictionary" % (w.name, st), w.where(ev[0].node),
+                          "%s(%s) makes its own dictionary, but the helper does not return it" % (st, ", ".join(show(a) for a in ev[0].args)), construct=w.qualname, stmt="wrapper of " + st)
+                wrap[st] = (w, amap)
+                ctx.analysed(w)
+                continue
             out = ev[0].args[-1]
             ok = isinstance(out, ADict) and not out.items and wx.result is out and all(x is not None for x in amap[:-1])
             ctx.check(ok, "X5", "%s: fills a fresh dictionary through %s and returns that dictionary" % (w.name, st), w.where(ev[0].node),
